@@ -86,4 +86,18 @@ theorem new_tuple_trims :
     Gen.ValCodec.trimNullSuffixBody =
       "{ n := len(values) for i := len(values) - 1; i >= 0; i-- { if values[i] != nil { break } n-- } return values[:n] }" := ⟨rfl, rfl⟩
 
+/-- what the fixed-offset loop of `Compare` assumes — `left[start:stop]` is the field, i.e. the
+column is present with exactly its width — and who guarantees it: `makeFixedAccess` only covers
+the leading columns that are NOT NULL *and* have a `sizeFromType` (`fixedAccessAux`), and `Build`
+refuses a NULL in a NOT NULL column before delegating to `BuildPermissive` (`nullCheck`,
+`Builder.build`).  `Props.C15.tuple_order_built` derives `FastOk` from exactly these two. -/
+theorem fast_path_guard :
+    Gen.ValCodec.makeFixedAccessLoop =
+      "for _, typ := range types { if typ.Nullable { break } sz, ok := sizeFromType(typ) if !ok { break } off += sz acc = append(acc, off) }" ∧
+    Gen.ValCodec.builderBuildBody =
+      "{ for i, typ := range tb.Desc.Types { if !typ.Nullable && tb.fields[i] == nil { panic(\"cannot write NULL to non-NULL field: \" + strconv.Itoa(i)) } } return tb.BuildPermissive(ctx, pool) }" ∧
+    Gen.ValCodec.compareFastLoop =
+      "for i := 0; i < off; i++ { stop = desc.fast[i] cmp, err = compare(ctx, desc.Types[i], left[start:stop], right[start:stop], d.vs) if err != nil { return 0, err } if cmp != 0 { return cmp, nil } start = stop }" :=
+  ⟨rfl, rfl, rfl⟩
+
 end DoltVerif.Tie.ValCodec
